@@ -2,12 +2,19 @@
 
 Tie: translated kernels (lower_triangular_indices, number of indices, chunk bounds) and the hand
 model of ChunkedDistanceMatrix are executed by the Lean driver on the same inputs as the real
-functions.  Oracles (on the implementation alone): partition / balance / assembly / refusal /
-metric laws.
+functions, including the real CLI `batchie.cli.calculate_distance_matrix.main()` end to end.
+Oracles (on the implementation alone): partition / balance / assembly / refusal / metric laws /
+CLI-assembled matrix = direct numpy MSE on predict_viability.
+
+Every oracle failure carries a case dict from which `replay` re-executes exactly that case.
 """
-import itertools
+import contextlib
+import io
+import logging
 import os
 import shutil
+import struct
+import sys
 import tempfile
 
 import numpy as np
@@ -18,7 +25,9 @@ common.use_repo_sources()
 
 RULE = ("(n, n_chunks) grids: exhaustive for small n, boundary + random chunk counts for larger n; "
         "assemblies: real calculate/save/load/concat/to_dense with a stub metric encoding (i,j), chunk files "
-        "shuffled with repeats. Non-trivial: n>=3 and 2<=n_chunks (partition) / at least 2 non-empty chunks (assembly).")
+        "shuffled with repeats, one non-empty chunk dropped for the refusal; hand-built matrices with repeated/missing pairs; "
+        "real CLI main() per chunk on a real Screen + SparseDrugComboMCMCSample holder files, assembled in shuffled order with repeats; "
+        "MSEDistance on random vectors. Non-trivial: n>=3 and 2<=n_chunks (partition) / at least 2 non-empty chunks (assembly, CLI).")
 
 
 def stub_metric(z, i, j):
@@ -72,6 +81,35 @@ def cdm_arg(m):
     return "%d|%s" % (int(m.size), "-" if not es else ";".join("%d,%d,%d" % e for e in es))
 
 
+def show_dense_int(dense, n):
+    return "-" if n == 0 else ";".join(",".join(str(int(x)) for x in row) for row in dense)
+
+
+def int_list(l):
+    return "-" if not l else ",".join(str(int(x)) for x in l)
+
+
+def f2bits(x):
+    return struct.unpack("<Q", struct.pack("<d", float(x)))[0]
+
+
+def bits2f(b):
+    return struct.unpack("<d", struct.pack("<Q", int(b)))[0]
+
+
+class Tie:
+    """driver lines queued during the run, compared at the end"""
+
+    def __init__(self):
+        self.lines, self.expect, self.meta, self.cmp = [], [], [], []
+
+    def add(self, line, expect, meta, cmp=None):
+        self.lines.append(line)
+        self.expect.append(expect)
+        self.meta.append(meta)
+        self.cmp.append(cmp)
+
+
 def grid(ctx):
     nmax_exh = ctx.scale(9, 14, 12)
     nmax = ctx.scale(40, 120, 80)
@@ -93,218 +131,471 @@ def grid(ctx):
     return out
 
 
+# ------------------------------------------------------------------------------------------------
+# one case of each kind (used by run and by replay)
+# ------------------------------------------------------------------------------------------------
+
+def case_partition(dc, case, res, tie=None, rng=None, budget_big=60):
+    n, k = case["n"], case["n_chunks"]
+    N = n * (n - 1) // 2
+    full = list(dc.lower_triangular_indices(n))
+    if len(full) != N or dc.get_number_of_lower_triangular_indices(n) != N or \
+            full != [(i, j) for i in range(n) for j in range(i)]:
+        res.fail("enumeration is not the pairs j<i<n in row-major order", case, {"len": len(full)}, "n(n-1)/2 pairs j<i<n")
+    cs = range(k)
+    if rng is not None and k > 40 and n > 14 and k * N > 200000:
+        cs = sorted(set([0, 1, k - 1, k - 2] + [rng.randrange(k) for _ in range(budget_big // 10)]))
+        cs = [c for c in cs if 0 <= c < k]
+    chunks = {}
+    for c in cs:
+        try:
+            chunks[c] = dc.get_lower_triangular_indices_chunk(n, c, k)
+        except Exception as e:  # noqa
+            chunks[c] = "err:" + type(e).__name__
+    if any(isinstance(v, str) for v in chunks.values()):
+        res.fail("chunk raises on valid input", case, [str(v) for v in chunks.values() if isinstance(v, str)][:1], "no exception")
+        return
+    if len(chunks) == k:
+        cat = [p for c in range(k) for p in chunks[c]]
+        if cat != full:
+            seen = {}
+            for p in cat:
+                seen[p] = seen.get(p, 0) + 1
+            res.fail("chunks do not partition the lower-triangular pairs", case,
+                     {"concatenated_len": len(cat), "distinct": len(seen), "missing": [list(p) for p in sorted(set(full) - set(cat))][:5],
+                      "duplicated": [list(p) for p in sorted(p for p, m in seen.items() if m > 1)][:5]},
+                     "concatenation over chunk indices equals every pair i>j exactly once")
+        sizes = [len(chunks[c]) for c in range(k)]
+        if max(sizes) - min(sizes) > 1:
+            res.fail("chunk sizes differ by more than one", case, sizes[:20], "max-min <= 1")
+    else:
+        fs = set(full)
+        for c in chunks:
+            for p in chunks[c]:
+                if tuple(p) not in fs:
+                    res.fail("chunk yields a pair outside the lower triangle", case, list(p), "pairs j<i<n")
+        sizes = [len(v) for v in chunks.values()]
+        if sizes and (max(sizes) - min(sizes) > 1 or min(sizes) < N // k or max(sizes) > N // k + 1):
+            res.fail("chunk sizes differ by more than one", case, sizes[:20], "floor(N/k) or floor(N/k)+1")
+    if tie is not None:
+        pick = list(chunks.keys())
+        if len(pick) > 6:
+            pick = sorted(set([pick[0], pick[-1]] + rng.sample(pick, 4)))
+        for c in pick:
+            tie.add("chunk %d %d %d" % (n, c, k), show_pairs(chunks[c]), ("chunk", n, c, k))
+
+
+def case_assembly(dc, case, res, tmp, tie=None, tie_calc=False):
+    """case: n, n_chunks, zmod, order (chunk indices, every index at least once), dropped (index or None)"""
+    n, k, z, order = case["n"], case["n_chunks"], case["zmod"], case["order"]
+    thetas = StubThetas(n)
+    files = {}
+    for c in range(k):
+        try:
+            m = dc.calculate_pairwise_distance_matrix_on_predictions(thetas, StubMetric(z), None, c, k)
+        except Exception as e:
+            res.fail("chunk computation raises", dict(case, chunk=c), type(e).__name__, "no exception")
+            return
+        fn = os.path.join(tmp, "a_%d.h5" % c)
+        m.save(fn)
+        files[c] = fn
+        if tie is not None and tie_calc:
+            tie.add("calc %d %d %d %d" % (n, c, k, z), show_cdm(m), ("calc", n, c, k, z))
+    loaded = [dc.ChunkedDistanceMatrix.load(files[c]) for c in order]
+    nonempty = [c for c in range(k) if dc.ChunkedDistanceMatrix.load(files[c]).current_index > 0]
+    try:
+        cat = dc.ChunkedDistanceMatrix.concat(loaded)
+        if not cat.is_complete():
+            res.fail("assembly of all chunks is not complete", case, {"entries": int(cat.current_index)}, "is_complete() is True")
+        keys = [(int(cat.row_indices[i]), int(cat.col_indices[i])) for i in range(cat.current_index)]
+        if sorted(keys) != [(i, j) for i in range(n) for j in range(i)]:
+            res.fail("assembled matrix does not hold every pair exactly once", case, {"entries": len(keys), "distinct": len(set(keys))},
+                     "each pair j<i<n exactly once")
+        dense = cat.to_dense()
+        want = np.zeros((n, n))
+        for i in range(n):
+            for j in range(i):
+                want[i, j] = want[j, i] = stub_metric(z, i, j)
+        if dense.shape != want.shape or not np.array_equal(dense, want):
+            res.fail("assembled matrix differs from the metric matrix", case, dense.tolist(), want.tolist())
+        elif not np.array_equal(dense, dense.T) or np.any(np.diag(dense) != 0):
+            res.fail("assembled matrix not symmetric / zero-diagonal", case, dense.tolist(), "symmetric, zero diagonal")
+        single = dc.calculate_pairwise_distance_matrix_on_predictions(thetas, StubMetric(z), None, 0, 1).to_dense()
+        if not np.array_equal(single, dense):
+            res.fail("assembled matrix differs from single-chunk computation", case, dense.tolist(), single.tolist())
+        if tie is not None:
+            tie.add("dense " + "/".join(cdm_arg(m) for m in loaded), show_dense_int(dense, n), ("dense", n, k, z, order))
+            tie.add("assemble %d %d %d %s" % (n, k, z, int_list(order)), show_dense_int(dense, n), ("assemble", n, k, z, order))
+        res.traces_validated += 1
+    except Exception as e:
+        res.fail("assembly of all chunks raises", case, "%s: %s" % (type(e).__name__, e), "complete symmetric matrix")
+    # refusal: drop one non-empty chunk
+    drop = case.get("dropped")
+    if drop is not None and drop in nonempty:
+        rest = [c for c in order if c != drop]
+        part = [dc.ChunkedDistanceMatrix.load(files[c]) for c in rest]
+        if part:
+            try:
+                cat = dc.ChunkedDistanceMatrix.concat(part)
+                if cat.is_complete():
+                    res.fail("matrix missing a chunk reports complete", dict(case), "is_complete() True", "False")
+                try:
+                    cat.to_dense()
+                    res.fail("incomplete matrix densified", dict(case), "to_dense returned", "ValueError")
+                except ValueError:
+                    res.count("refusal.ok")
+                if tie is not None:
+                    tie.add("dense " + "/".join(cdm_arg(m) for m in part), "err:ValueError", ("dense-incomplete", n, k, drop))
+                    tie.add("assemble %d %d %d %s" % (n, k, z, int_list(rest)), "err:ValueError", ("assemble-incomplete", n, k, drop))
+            except Exception as e:
+                res.fail("concat of partial chunk set raises", dict(case), type(e).__name__, "ok")
+    for fn in files.values():
+        os.unlink(fn)
+    return len(nonempty)
+
+
+def case_handbuilt(dc, case, res, tmp, tie=None):
+    """a matrix built by hand through add_value (repeats allowed), saved and loaded.  Requirement used as oracle:
+    a matrix lacking a pair must refuse to_dense.  `is_complete` only counts entries, so on the unchanged code a matrix
+    with a repeated pair AND a missing pair whose count happens to equal N densifies -- recorded as an observation
+    (C07_count_only_witness; not reachable through calculate/save/load/concat), not as a failure."""
+    n, entries = case["n"], case["entries"]
+    N = n * (n - 1) // 2
+    m = dc.ChunkedDistanceMatrix(n)
+    for (i, j) in entries:
+        m.add_value(i, j, float(stub_metric(0, i, j)))
+    fn = os.path.join(tmp, "h.h5")
+    m.save(fn)
+    m = dc.ChunkedDistanceMatrix.load(fn)
+    os.unlink(fn)
+    missing = set((i, j) for i in range(n) for j in range(i)) - set(map(tuple, entries))
+    try:
+        d = m.to_dense()
+        out = show_dense_int(d, n)
+        if missing:
+            if len(entries) == N:
+                res.count("handbuilt.count_only_complete(observation)")
+            else:
+                res.fail("matrix lacking a pair densified", case, {"entries": len(entries), "N": N, "missing": [list(p) for p in sorted(missing)][:3]},
+                         "ValueError from to_dense", signature="c07-missing-pair-densified")
+    except ValueError:
+        out = "err:ValueError"
+        if not missing and len(entries) == N:
+            res.fail("complete matrix refuses to densify", case, "ValueError", "dense matrix")
+    if tie is not None:
+        tie.add("dense " + cdm_arg(m), out, ("dense-handbuilt", n, len(entries)))
+
+
+@contextlib.contextmanager
+def quiet_cli(argv):
+    """run a batchie CLI main() in-process: sys.argv patched, its logging handler and stderr output discarded"""
+    lg = logging.getLogger("batchie")
+    old_handlers, old_level = list(lg.handlers), lg.level
+    old_argv, old_err = sys.argv, sys.stderr
+    sys.argv = argv
+    sys.stderr = io.StringIO()
+    try:
+        yield
+    finally:
+        sys.argv, sys.stderr = old_argv, old_err
+        lg.handlers[:] = old_handlers
+        lg.setLevel(old_level)
+
+
+def make_cli_inputs(case, tmp):
+    """deterministic real Screen + ThetaHolder files from the case's seed"""
+    from batchie.core import ThetaHolder
+    from batchie.data import Screen
+    from batchie.models.sparse_combo import SparseDrugComboMCMCSample
+    rs = np.random.default_rng(case["seed"])
+    n, arity, rows, D = case["n"], case["arity"], case["rows"], case["D"]
+    drugs = ["d%d" % i for i in range(case["n_drugs"])] + ["control"]
+    samples = ["s%d" % i for i in range(case["n_samples"])]
+    tn = np.array([[drugs[rs.integers(len(drugs))] for _ in range(arity)] for _ in range(rows)], dtype=str)
+    # make sure every drug and sample occurs (ids dense) -- not required by Screen, keeps sizes stable
+    td = np.where(tn == "control", 0.0, rs.choice([0.5, 1.0, 2.0], size=tn.shape))
+    sn = np.array([samples[i % len(samples)] for i in range(rows)], dtype=str)
+    screen = Screen(observations=rs.random(rows), sample_names=sn, plate_names=np.array(["p%d" % (i % 2) for i in range(rows)], dtype=str),
+                    treatment_names=tn, treatment_doses=td, control_treatment_name="control")
+    data_fn = os.path.join(tmp, "data.h5")
+    screen.save_h5(data_fn)
+    nt, ns = screen.n_unique_treatments, screen.n_unique_samples
+    thetas = []
+    for _ in range(n):
+        thetas.append(SparseDrugComboMCMCSample(W=rs.normal(size=(ns, D)), W0=rs.normal(size=(ns,)), V2=rs.normal(size=(nt, D)),
+                                                V1=rs.normal(size=(nt, D)), V0=rs.normal(size=(nt,)), alpha=float(rs.normal()),
+                                                precision=float(rs.random() + 0.5)))
+    split = case["split"]
+    parts = [thetas[:split], thetas[split:]] if 0 < split < n else [thetas]
+    theta_fns = []
+    for pi, part in enumerate(parts):
+        h = ThetaHolder(n_thetas=len(part))
+        for t in part:
+            h.add_theta(t)
+        fn = os.path.join(tmp, "thetas%d.h5" % pi)
+        h.save_h5(fn)
+        theta_fns.append(fn)
+    return data_fn, theta_fns
+
+
+def case_cli(dc, case, res, tmp, tie=None):
+    """case: seed, n (thetas >= 1), n_chunks, order, arity, rows, D, n_drugs, n_samples, split, sigmoid (None = default)"""
+    from scipy.special import expit
+    from batchie.cli import calculate_distance_matrix as cli
+    from batchie.core import ThetaHolder
+    from batchie.data import Screen
+    n, k, order = case["n"], case["n_chunks"], case["order"]
+    data_fn, theta_fns = make_cli_inputs(case, tmp)
+    def run_chunk(c, kk, out):
+        """the CLI for the default metric parameters; the CLI cannot pass optional constructor arguments such as
+        sigmoid (cast_dict_to_type only knows required ones -> KeyError), so sigmoid=False goes through main()'s body by hand"""
+        if case.get("sigmoid") is None:
+            argv = ["calculate_distance_matrix", "--distance-metric", "MSEDistance", "--n-chunks", str(kk), "--chunk-index", str(c),
+                    "--data", data_fn, "--thetas"] + theta_fns + ["--output", out]
+            with quiet_cli(argv), contextlib.redirect_stdout(io.StringIO()):
+                cli.main()
+        else:
+            from batchie.distance.mse import MSEDistance
+            with contextlib.redirect_stdout(io.StringIO()):
+                data = Screen.load_h5(data_fn)
+                th = ThetaHolder(n_thetas=1)
+                th = th.concat([th.load_h5(x) for x in theta_fns])
+            r = dc.calculate_pairwise_distance_matrix_on_predictions(thetas=th, distance_metric=MSEDistance(sigmoid=case["sigmoid"]),
+                                                                      data=data, chunk_index=c, n_chunks=kk)
+            r.save(out)
+
+    outs = {}
+    for c in range(k):
+        out = os.path.join(tmp, "m%d.h5" % c)
+        try:
+            run_chunk(c, k, out)
+        except BaseException as e:  # argparse exits with SystemExit
+            res.fail("CLI calculate_distance_matrix raises", dict(case, chunk=c), "%s: %s" % (type(e).__name__, e), "chunk file written")
+            return
+        outs[c] = out
+    # direct reference: MSE on predict_viability of the reloaded inputs
+    with contextlib.redirect_stdout(io.StringIO()):
+        screen = Screen.load_h5(data_fn)
+        hs = [ThetaHolder.load_h5(f) for f in theta_fns]
+    preds = [t.predict_viability(screen) for h in hs for t in h.thetas]
+    sig = True if case.get("sigmoid") is None else case["sigmoid"]
+    want = np.zeros((n, n))
+    for i in range(n):
+        for j in range(n):
+            a, b = (expit(preds[i]), expit(preds[j])) if sig else (preds[i], preds[j])
+            want[i, j] = np.mean((a - b) ** 2)
+    loaded = {c: dc.ChunkedDistanceMatrix.load(outs[c]) for c in range(k)}
+    nonempty = sum(1 for c in range(k) if loaded[c].current_index > 0)
+    for c in range(k):
+        m = loaded[c]
+        pairs = [(int(m.row_indices[i]), int(m.col_indices[i])) for i in range(m.current_index)]
+        if tie is not None:
+            tie.add("chunk %d %d %d" % (n, c, k), show_pairs(pairs), ("cli-chunk", n, c, k))
+    try:
+        cat = dc.ChunkedDistanceMatrix.concat([dc.ChunkedDistanceMatrix.load(outs[c]) for c in order])
+        dense = cat.to_dense()
+    except Exception as e:
+        res.fail("assembly of CLI chunk files raises", case, "%s: %s" % (type(e).__name__, e), "complete matrix")
+        return nonempty
+    if dense.shape != want.shape or not np.allclose(dense, want, rtol=1e-12, atol=1e-15):
+        res.fail("CLI-assembled matrix differs from direct MSE on predict_viability", case,
+                 {"max_abs_diff": float(np.max(np.abs(dense - want))) if dense.shape == want.shape else str(dense.shape)}, "equal (rtol 1e-12)")
+    if not np.array_equal(dense, dense.T) or np.any(np.diag(dense) != 0) or np.any(dense < 0):
+        res.fail("CLI-assembled matrix not symmetric / zero-diagonal / non-negative", case, dense.tolist(), "symmetric, zero diagonal, >= 0")
+    # single-chunk CLI run
+    out1 = os.path.join(tmp, "single.h5")
+    run_chunk(0, 1, out1)
+    single = dc.ChunkedDistanceMatrix.load(out1).to_dense()
+    if not np.array_equal(single, dense):
+        res.fail("CLI-assembled matrix differs from the single-chunk CLI run", case,
+                 {"max_abs_diff": float(np.max(np.abs(dense - single)))}, "bit-equal")
+    res.traces_validated += 1
+    for f in list(outs.values()) + [out1, data_fn] + theta_fns:
+        if os.path.exists(f):
+            os.unlink(f)
+    return nonempty
+
+
+def case_metric(case, res, tie=None):
+    from scipy.special import expit
+    from batchie.distance.mse import MSEDistance
+    a, b, sig = np.array(case["a"], dtype=float), np.array(case["b"], dtype=float), case["sigmoid"]
+    m = MSEDistance(sigmoid=sig)
+    dab, dba, daa = m.distance(a, b), m.distance(b, a), m.distance(a, a)
+    if dab != dba:
+        res.fail("metric not symmetric", case, [dab, dba], "equal")
+    if not (dab >= 0):
+        res.fail("metric negative", case, dab, ">= 0")
+    if daa != 0:
+        res.fail("metric non-zero on identical predictions", case, daa, 0)
+    ref = float(np.mean(((expit(a) - expit(b)) if sig else (a - b)) ** 2))
+    if abs(ref - dab) > 1e-12 * max(1.0, abs(ref)):
+        res.fail("metric differs from mean squared difference", case, dab, ref)
+    if tie is not None:
+        def close(expect, got, ref=float(dab)):
+            try:
+                g = bits2f(got)
+            except Exception:
+                return False
+            return abs(g - ref) <= 1e-12 * max(1.0, abs(ref))
+        tie.add("mse %d %s %s" % (1 if sig else 0, int_list([f2bits(x) for x in a]), int_list([f2bits(x) for x in b])),
+                repr(float(dab)), ("mse", len(a), sig), cmp=close)
+
+
+# ------------------------------------------------------------------------------------------------
+
+def gen_assembly(rng):
+    n = rng.choice([0, 1, 2, 3, 3, 4, 4, 5, 5, 6, 7, 8, 9])
+    N = n * (n - 1) // 2
+    k = rng.choice([1, 2, 3, max(1, N - 1), max(1, N), N + 1, N + 2, rng.randint(1, N + 3)])
+    z = rng.choice([0, 0, 2, 3, 7, 1])
+    order = list(range(k))
+    rng.shuffle(order)
+    reps = [rng.randrange(k) for _ in range(rng.choice([0, 0, 1, 2]))]
+    order = order + reps
+    rng.shuffle(order)
+    # which non-empty chunk to drop for the refusal part (chunk c is non-empty iff c < N when k > N, always when k <= N and N > 0)
+    ne = [c for c in range(k) if (N // k) + (1 if c < N % k else 0) > 0]
+    drop = rng.choice(ne) if ne else None
+    return {"kind": "assembly", "n": n, "n_chunks": k, "zmod": z, "order": order, "dropped": drop}, bool(reps)
+
+
+def gen_handbuilt(rng):
+    n = rng.choice([2, 3, 3, 4, 4, 5])
+    N = n * (n - 1) // 2
+    allp = [(i, j) for i in range(n) for j in range(i)]
+    mode = rng.choice(["overfull", "exact-dup", "short", "perm"])
+    if mode == "perm":
+        es = list(allp)
+        rng.shuffle(es)
+    elif mode == "short":
+        es = rng.sample(allp, rng.randint(0, N - 1))
+    elif mode == "exact-dup":
+        es = [rng.choice(allp[:-1]) for _ in range(N)] if N > 1 else list(allp)
+    else:
+        base = [p for p in allp if rng.random() < 0.7] or allp[:1]
+        es = [rng.choice(base) for _ in range(N + rng.randint(1, 3))]
+    return {"kind": "handbuilt", "n": n, "entries": [list(p) for p in es], "mode": mode}
+
+
+def gen_cli(rng):
+    n = rng.choice([1, 2, 3, 4, 5, 6])
+    N = n * (n - 1) // 2
+    k = rng.choice([1, 2, 3, max(1, N), N + 2])
+    order = list(range(k))
+    rng.shuffle(order)
+    order += [rng.randrange(k) for _ in range(rng.choice([0, 1, 2]))]
+    rng.shuffle(order)
+    return {"kind": "cli", "seed": rng.randrange(2 ** 31), "n": n, "n_chunks": k, "order": order, "arity": rng.choice([1, 2, 2]),
+            "rows": rng.randint(3, 9), "D": rng.choice([1, 2, 3]), "n_drugs": rng.randint(2, 4), "n_samples": rng.randint(1, 3),
+            "split": rng.randint(0, n), "sigmoid": rng.choice([None, None, None, False])}
+
+
 def run(ctx, res):
     from batchie import distance_calculation as dc
-    from batchie.distance.mse import MSEDistance
 
     res.rule = RULE
     drv = ctx.driver
+    tie = Tie()
 
     # ---------- A. index arithmetic -----------------------------------------------------
-    lines, expect, meta = [], [], []
     for n in range(0, ctx.scale(30, 60)):
-        lines.append("numlowertri %d" % n)
-        expect.append(str(dc.get_number_of_lower_triangular_indices(n)))
-        meta.append(("numlowertri", n))
-        lines.append("lowertri %d" % n)
-        expect.append(show_pairs(list(dc.lower_triangular_indices(n))))
-        meta.append(("lowertri", n))
-    g = grid(ctx)
+        tie.add("numlowertri %d" % n, str(dc.get_number_of_lower_triangular_indices(n)), ("numlowertri", n))
+        tie.add("lowertri %d" % n, show_pairs(list(dc.lower_triangular_indices(n))), ("lowertri", n))
     budget_big = ctx.scale(60, 400)
     rng = ctx.subrng("chunks")
-    for (n, k) in g:
+    for (n, k) in grid(ctx):
         N = n * (n - 1) // 2
-        full = list(dc.lower_triangular_indices(n))
-        # oracle on the implementation: chunks partition `full`, contiguous, balanced
-        cs = range(k)
-        if k > 40 and n > 14:
-            # large chunk counts: all chunks still enumerated for the oracle when cheap, else sampled
-            if k * N > 200000:
-                cs = sorted(set([0, 1, k - 1, k - 2] + [rng.randrange(k) for _ in range(budget_big // 10)]))
-                cs = [c for c in cs if 0 <= c < k]
-        chunks = {}
-        for c in cs:
-            try:
-                chunks[c] = dc.get_lower_triangular_indices_chunk(n, c, k)
-            except Exception as e:  # noqa
-                chunks[c] = "err:" + type(e).__name__
         res.evaluations += 1
         if n >= 3 and k >= 2:
             res.nontrivial.add(("part", n, k))
         res.count("partition.n_le_14" if n <= 14 else "partition.n_gt_14")
         if k > N:
             res.count("partition.more_chunks_than_pairs")
-        case = {"kind": "partition", "n": n, "n_chunks": k}
-        if any(isinstance(v, str) for v in chunks.values()):
-            res.fail("chunk raises on valid input", case, [str(v) for v in chunks.values() if isinstance(v, str)][:1], "no exception")
-            continue
-        if len(chunks) == k:
-            cat = [p for c in range(k) for p in chunks[c]]
-            if cat != full:
-                res.fail("chunks do not partition the lower-triangular pairs", case,
-                         {"concatenated_len": len(cat), "distinct": len(set(cat)), "missing": [list(p) for p in sorted(set(full) - set(cat))][:5],
-                          "duplicated": [list(p) for p in sorted(set(p for p in cat if cat.count(p) > 1))][:5]},
-                         "concatenation over chunk indices equals every pair i>j exactly once")
-            sizes = [len(chunks[c]) for c in range(k)]
-            if max(sizes) - min(sizes) > 1:
-                res.fail("chunk sizes differ by more than one", case, sizes[:20], "max-min <= 1")
-        else:
-            for c in chunks:
-                for p in chunks[c]:
-                    if tuple(p) not in set(full):
-                        res.fail("chunk yields a pair outside the lower triangle", case, list(p), "pairs j<i<n")
-        # tie: same chunks from the model (sampled chunk indices to bound the line count)
-        pick = list(chunks.keys())
-        if len(pick) > 6:
-            pick = sorted(set([pick[0], pick[-1]] + rng.sample(pick, 4)))
-        for c in pick:
-            lines.append("chunk %d %d %d" % (n, c, k))
-            expect.append(show_pairs(chunks[c]))
-            meta.append(("chunk", n, c, k))
+        case_partition(dc, {"kind": "partition", "n": n, "n_chunks": k}, res, tie, rng, budget_big)
     # malformed stream: errors on both sides
     for (n, c, k) in [(3, 0, 0), (3, 3, 3), (3, 5, 2), (4, -1, 0), (0, 0, 1), (1, 0, 1), (2, 0, 5)]:
         try:
             v = show_pairs(dc.get_lower_triangular_indices_chunk(n, c, k))
         except (AssertionError, ZeroDivisionError, ValueError):
             v = "err"
-        lines.append("chunk %d %d %d" % (n, c, k))
-        expect.append(v)
-        meta.append(("chunk-malformed", n, c, k))
+        tie.add("chunk %d %d %d" % (n, c, k), v, ("chunk-malformed", n, c, k))
         res.count("malformed")
 
-    # ---------- B. assembly through real save/load/concat -------------------------------
     tmp = tempfile.mkdtemp(prefix="c07_", dir=os.environ.get("VERIF_TMP", None))
     try:
-        n_asm = ctx.scale(60, 1200, 500)
+        # ---------- B. assembly through real save/load/concat ---------------------------
         rng = ctx.subrng("asm")
-        for t in range(n_asm):
-            n = rng.choice([0, 1, 2, 3, 3, 4, 4, 5, 5, 6, 7, 8, 9])
-            N = n * (n - 1) // 2
-            k = rng.choice([1, 2, 3, max(1, N - 1), max(1, N), N + 1, N + 2, rng.randint(1, N + 3)])
-            z = rng.choice([0, 0, 2, 3, 7, 1])
-            thetas = StubThetas(n)
-            case = {"kind": "assembly", "n": n, "n_chunks": k, "zmod": z}
-            files = []
-            ok = True
-            for c in range(k):
-                try:
-                    m = dc.calculate_pairwise_distance_matrix_on_predictions(thetas, StubMetric(z), None, c, k)
-                except Exception as e:
-                    res.fail("chunk computation raises", dict(case, chunk=c), type(e).__name__, "no exception")
-                    ok = False
-                    break
-                fn = os.path.join(tmp, "a%d_%d.h5" % (t, c))
-                m.save(fn)
-                files.append(fn)
-                if t < 25 or rng.random() < 0.1:
-                    lines.append("calc %d %d %d %d" % (n, c, k, z))
-                    expect.append(show_cdm(m))
-                    meta.append(("calc", n, c, k, z))
-            if not ok:
-                continue
-            order = list(range(k))
-            rng.shuffle(order)
-            reps = [rng.randrange(k) for _ in range(rng.choice([0, 0, 1, 2]))]
-            order = order + reps
-            rng.shuffle(order)
-            case["order"] = order
-            loaded = [dc.ChunkedDistanceMatrix.load(files[c]) for c in order]
+        for t in range(ctx.scale(150, 1500, 600)):
+            case, has_reps = gen_assembly(rng)
             res.evaluations += 1
-            nonempty = sum(1 for c in range(k) if loaded[order.index(c)].current_index > 0)
-            if nonempty >= 2:
-                res.nontrivial.add(("asm", n, k, z, tuple(order)))
-            res.count("assembly.repeats" if reps else "assembly.norepeats")
-            try:
-                cat = dc.ChunkedDistanceMatrix.concat(loaded)
-                dense = cat.to_dense()
-                want = np.zeros((n, n))
-                for i in range(n):
-                    for j in range(i):
-                        want[i, j] = want[j, i] = stub_metric(z, i, j)
-                if dense.shape != want.shape or not np.array_equal(dense, want):
-                    res.fail("assembled matrix differs from the metric matrix", case, dense.tolist(), want.tolist())
-                single = dc.calculate_pairwise_distance_matrix_on_predictions(thetas, StubMetric(z), None, 0, 1).to_dense()
-                if not np.array_equal(single, dense):
-                    res.fail("assembled matrix differs from single-chunk computation", case, dense.tolist(), single.tolist())
-                impl = " ".join(",".join(str(int(x)) for x in row) for row in dense) if n else ""
-                lines.append("dense " + "/".join(cdm_arg(m) for m in loaded))
-                expect.append("-" if n == 0 else ";".join(",".join(str(int(x)) for x in row) for row in dense))
-                meta.append(("dense", n, k, z, order))
-                res.traces_validated += 1
-            except Exception as e:
-                res.fail("assembly of all chunks raises", case, "%s: %s" % (type(e).__name__, e), "complete symmetric matrix")
-            # refusal: drop one non-empty chunk
-            ne = [c for c in range(k) if dc.ChunkedDistanceMatrix.load(files[c]).current_index > 0]
-            if ne:
-                drop = rng.choice(ne)
-                part = [dc.ChunkedDistanceMatrix.load(files[c]) for c in order if c != drop]
-                if part:
-                    try:
-                        cat = dc.ChunkedDistanceMatrix.concat(part)
-                        try:
-                            cat.to_dense()
-                            res.fail("incomplete matrix densified", dict(case, dropped=drop), "to_dense returned", "ValueError")
-                        except ValueError:
-                            res.count("refusal.ok")
-                        lines.append("dense " + "/".join(cdm_arg(m) for m in part))
-                        expect.append("err:ValueError")
-                        meta.append(("dense-incomplete", n, k, drop))
-                    except Exception as e:
-                        res.fail("concat of partial chunk set raises", dict(case, dropped=drop), type(e).__name__, "ok")
-            for fn in files:
-                os.unlink(fn)
+            nonempty = case_assembly(dc, case, res, tmp, tie, tie_calc=(t < 25 or rng.random() < 0.1))
+            if nonempty is not None and nonempty >= 2:
+                res.nontrivial.add(("asm", case["n"], case["n_chunks"], case["zmod"], tuple(case["order"])))
+            res.count("assembly.repeats" if has_reps else "assembly.norepeats")
             if len(res.samples) < 3:
                 res.sample(case)
-        # ---------- C. metric laws on the real MSEDistance -----------------------------
+        # ---------- B2. hand-built matrices (repeats / missing pairs) ---------------------
+        rng = ctx.subrng("hand")
+        for t in range(ctx.scale(100, 800, 400)):
+            case = gen_handbuilt(rng)
+            res.evaluations += 1
+            res.count("handbuilt." + case["mode"])
+            case_handbuilt(dc, case, res, tmp, tie)
+        # ---------- B3. the real CLI end to end -------------------------------------------
+        rng = ctx.subrng("cli")
+        for t in range(ctx.scale(25, 200, 80)):
+            case = gen_cli(rng)
+            res.evaluations += 1
+            ne = case_cli(dc, case, res, tmp, tie)
+            res.count("cli.arity%d" % case["arity"])
+            res.count("cli.sigmoid_%s" % case["sigmoid"])
+            if ne is not None and ne >= 2:
+                res.nontrivial.add(("cli", case["seed"]))
+            if t == 0:
+                res.sample(case)
+        # ---------- C. metric laws on the real MSEDistance -------------------------------
         rng = ctx.subrng("mse")
         nprng = np.random.default_rng(rng.randrange(2 ** 32))
-        for t in range(ctx.scale(100, 2000)):
+        nm = ctx.scale(100, 2000)
+        for t in range(nm):
             L = rng.choice([1, 2, 3, 10, 50])
             a = nprng.normal(size=L) * rng.choice([0.1, 1, 10])
             b = nprng.normal(size=L) * rng.choice([0.1, 1, 10])
             for sig in (True, False):
-                m = MSEDistance(sigmoid=sig)
-                dab, dba, daa = m.distance(a, b), m.distance(b, a), m.distance(a, a)
                 res.evaluations += 1
-                case = {"kind": "metric", "a": a.tolist(), "b": b.tolist(), "sigmoid": sig}
-                if dab != dba:
-                    res.fail("metric not symmetric", case, [dab, dba], "equal")
-                if not (dab >= 0):
-                    res.fail("metric negative", case, dab, ">= 0")
-                if daa != 0:
-                    res.fail("metric non-zero on identical predictions", case, daa, 0)
-                from scipy.special import expit
-                ref = float(np.mean(((expit(a) - expit(b)) if sig else (a - b)) ** 2))
-                if abs(ref - dab) > 1e-12 * max(1.0, abs(ref)):
-                    res.fail("metric differs from mean squared difference", case, dab, ref)
-        res.count("metric.cases", ctx.scale(100, 2000) * 2)
+                case_metric({"kind": "metric", "a": a.tolist(), "b": b.tolist(), "sigmoid": sig}, res, tie if t < 200 else None)
+        res.count("metric.cases", nm * 2)
     finally:
         shutil.rmtree(tmp, ignore_errors=True)
 
     # ---------- tie: model vs implementation --------------------------------------------
     if drv is not None:
-        got = drv.ask(lines)
-        for l, e, g_, m in zip(lines, expect, got, meta):
-            if e != g_:
-                res.disagree("C07:%s" % m[0], {"line": l}, e[:400], g_[:400])
-        res.count("tie.lines", len(lines))
+        got = drv.ask(tie.lines)
+        for l, e, g_, m, cmp in zip(tie.lines, tie.expect, got, tie.meta, tie.cmp):
+            same = cmp(e, g_) if cmp is not None else (e == g_)
+            if not same:
+                res.disagree("C07:%s" % m[0], {"line": l[:2000]}, e[:400], g_[:400])
+        res.count("tie.lines", len(tie.lines))
     res.sample({"kind": "partition", "n": 7, "n_chunks": 5})
 
 
 def replay(ctx, case, res):
     from batchie import distance_calculation as dc
-    if case.get("kind") == "partition":
-        n, k = case["n"], case["n_chunks"]
-        full = list(dc.lower_triangular_indices(n))
-        cat, sizes = [], []
-        for c in range(k):
-            ch = dc.get_lower_triangular_indices_chunk(n, c, k)
-            cat += ch
-            sizes.append(len(ch))
-        if cat != full:
-            res.fail("chunks do not partition the lower-triangular pairs", case, {"len": len(cat)}, "every pair once")
-        if sizes and max(sizes) - min(sizes) > 1:
-            res.fail("chunk sizes differ by more than one", case, sizes[:20], "max-min <= 1")
-        return
-    # assemblies and metrics are regenerated by the seed; rerun the whole stream
-    run(ctx, res)
+    kind = case.get("kind")
+    tmp = tempfile.mkdtemp(prefix="c07r_", dir=os.environ.get("VERIF_TMP", None))
+    try:
+        if kind == "partition":
+            case_partition(dc, case, res)
+        elif kind == "assembly":
+            case_assembly(dc, case, res, tmp)
+        elif kind == "handbuilt":
+            case_handbuilt(dc, case, res, tmp)
+        elif kind == "cli":
+            case_cli(dc, case, res, tmp)
+        elif kind == "metric":
+            case_metric(case, res)
+        else:
+            run(ctx, res)
+    finally:
+        shutil.rmtree(tmp, ignore_errors=True)
